@@ -28,6 +28,15 @@ type reqSpec struct {
 	id   int
 	ns   byte // namespace of the request's start element: e none, c jabber:client (the stream's), s jabber:server
 	api  byte // r: SendIQ/SendMessage/SendPresence with a token reader, e: the *Element variant
+	dec  byte // q: the request's start element carries foreign x:id / x:type attributes in front of its own (api r only); 0 none
+}
+
+func (q reqSpec) field() string {
+	f := fmt.Sprintf("%c:%d:%c:%c", q.kind, q.id, q.ns, q.api)
+	if q.dec != 0 {
+		f += ":" + string(q.dec)
+	}
+	return f
 }
 
 func nsURI(b byte) string {
@@ -47,6 +56,43 @@ type peerStanza struct {
 	ns   byte // c: the stream's namespace, S: jabber:server spelled out
 	bad  bool // the content of the element cannot be read to its end (mismatched tags)
 	trunc bool // … because the input ends in the middle of it (token suffix T instead of X)
+	// decoy attributes (token suffix +<items>, 4 characters each): attributes with the local name
+	// id / type that are NOT the stanza's id / type because they are namespace qualified
+	//   form   q: x:id / x:type in a foreign namespace    n: namespace declaration xmlns:id / xmlns:type
+	//   field  i | t       value  digit (id q<d>) | r e g t (result error get set)
+	//   place  b: in front of the real attributes    a: behind them
+	decoy string
+}
+
+func decoyAttrs(spec string, place byte) string {
+	out := ""
+	for n := 0; n+4 <= len(spec); n += 4 {
+		it := spec[n : n+4]
+		if it[3] != place {
+			continue
+		}
+		name := map[byte]string{'i': "id", 't': "type"}[it[1]]
+		val := "q" + string(it[2])
+		if it[1] == 't' {
+			val = map[byte]string{'r': "result", 'e': "error", 'g': "get", 't': "set"}[it[2]]
+		}
+		if it[0] == 'q' {
+			out += fmt.Sprintf(` x:%s="%s"`, name, val)
+		} else {
+			out += fmt.Sprintf(` xmlns:%s="%s"`, name, val)
+		}
+	}
+	return out
+}
+
+// unqualified returns the value of the attribute `local` in no namespace.
+func unqualified(attrs []xml.Attr, local string) string {
+	for _, a := range attrs {
+		if a.Name.Space == "" && a.Name.Local == local {
+			return a.Value
+		}
+	}
+	return ""
 }
 
 func (p peerStanza) tok() string {
@@ -59,11 +105,17 @@ func (p peerStanza) tok() string {
 	if p.ns == 'S' {
 		t += "S"
 	}
+	if p.decoy != "" {
+		t += "+" + p.decoy
+	}
 	return t
 }
 
 func parsePeer(a string) peerStanza {
 	p := peerStanza{kind: a[1], ns: 'c'}
+	if n := strings.IndexByte(a, '+'); n >= 0 {
+		p.decoy, a = a[n+1:], a[:n]
+	}
 	if a[len(a)-1] == 'S' {
 		p.ns = 'S'
 		a = a[:len(a)-1]
@@ -104,10 +156,14 @@ func (p peerStanza) xml() string {
 	if p.bad {
 		body = `<n xmlns="urn:verif"><a></b></n>` // mismatched tags: reading the content fails half way
 	}
-	if p.trunc {
-		return fmt.Sprintf(`<%s xmlns="%s" id="q%d"%s><n xmlns="urn:verif"><a>`, kindLocal(p.kind), ns, p.id, t)
+	attrs := fmt.Sprintf(` id="q%d"%s`, p.id, t)
+	if p.decoy != "" {
+		attrs = ` xmlns:x="urn:verif:x"` + decoyAttrs(p.decoy, 'b') + attrs + decoyAttrs(p.decoy, 'a')
 	}
-	return fmt.Sprintf(`<%s xmlns="%s" id="q%d"%s>%s</%s>`, kindLocal(p.kind), ns, p.id, t, body, kindLocal(p.kind))
+	if p.trunc {
+		return fmt.Sprintf(`<%s xmlns="%s"%s><n xmlns="urn:verif"><a>`, kindLocal(p.kind), ns, attrs)
+	}
+	return fmt.Sprintf(`<%s xmlns="%s"%s>%s</%s>`, kindLocal(p.kind), ns, attrs, body, kindLocal(p.kind))
 }
 
 // gateReader is the payload of a request: the first token is the stanza start,
@@ -202,13 +258,7 @@ func newSessRun(r *common.Run, reqs []reqSpec) (*sessRun, error) {
 	}
 	ctl.Go("serve", func() {
 		err := rs.S.Serve(handlerFn(func(t xmlstream.TokenReadEncoder, start *xml.StartElement) error {
-			id := ""
-			for _, a := range start.Attr {
-				if a.Name.Local == "id" {
-					id = a.Value
-				}
-			}
-			ctl.Emit("handler", "h:"+start.Name.Local+":"+id, nil)
+			ctl.Emit("handler", "h:"+start.Name.Local+":"+unqualified(start.Attr, "id"), nil)
 			return nil
 		}))
 		ctl.Emit("serve", "ret:"+fmt.Sprint(err), nil)
@@ -255,6 +305,11 @@ func (sr *sessRun) start(i int) {
 	local := kindLocal(rq.kind)
 	typ := map[byte]string{'i': "get", 'm': "chat", 'p': ""}[rq.kind]
 	attrs := []xml.Attr{{Name: xml.Name{Local: "id"}, Value: "q" + strconv.Itoa(rq.id)}}
+	if rq.dec == 'q' {
+		// unrelated attributes that merely share the local names of the stanza attributes
+		attrs = []xml.Attr{{Name: xml.Name{Space: "urn:verif:x", Local: "id"}, Value: "q9"},
+			{Name: xml.Name{Space: "urn:verif:x", Local: "type"}, Value: "result"}, attrs[0]}
+	}
 	if typ != "" {
 		attrs = append(attrs, xml.Attr{Name: xml.Name{Local: "type"}, Value: typ})
 	}
@@ -326,12 +381,7 @@ func (sr *sessRun) returned(i int, e Ev) {
 		if terr != nil || !ok {
 			sr.problem("requester %d: response does not begin with a start element (%v)", i, terr)
 		}
-		id := ""
-		for _, a := range start.Attr {
-			if a.Name.Local == "id" {
-				id = a.Value
-			}
-		}
+		id := unqualified(start.Attr, "id")
 		k := -1
 		if sr.serve == "offering" && sr.hit == i {
 			k = sr.hitK
@@ -370,7 +420,7 @@ func (sr *sessRun) lines() []string {
 func (sr *sessRun) reqField() string {
 	var l []string
 	for _, q := range sr.reqs {
-		l = append(l, fmt.Sprintf("%c:%d:%c:%c", q.kind, q.id, q.ns, q.api))
+		l = append(l, q.field())
 	}
 	return common.Join(l, ",")
 }
